@@ -914,6 +914,42 @@ func (env *Env) evalCall(x *ECall) (*Val, error) {
 					return e.contentOf(env.st, v)
 				}
 			}
+		case "viewEq", "viewEqOld":
+			// viewEq(l1, l2): every layered ghost variable has the same content at layers l1 and l2 (current state);
+			// viewEqOld(l1, l2): content at l1 now == content at l2 in the pre-state
+			if len(x.Args) == 2 {
+				l1, err := env.evalInt(x.Args[0])
+				if err != nil {
+					return nil, err
+				}
+				oenv := env
+				if id.Name == "viewEqOld" {
+					n := *env
+					n.st = env.old
+					oenv = &n
+				}
+				l2, err := oenv.evalInt(x.Args[1])
+				if err != nil {
+					return nil, err
+				}
+				var cs []string
+				for _, gn := range e.DB.Layered {
+					g, ok := e.DB.GhostVars[gn]
+					if !ok {
+						continue // declared in a package that is not part of this load
+					}
+					a, err := env.ghostVarTerm(g, env.st)
+					if err != nil {
+						return nil, err
+					}
+					b, err := env.ghostVarTerm(g, oenv.st)
+					if err != nil {
+						return nil, err
+					}
+					cs = append(cs, eq("(select "+a.L[0].T+" "+l1+")", "(select "+b.L[0].T+" "+l2+")"))
+				}
+				return mathVal(and(cs...), "Bool"), nil
+			}
 		case "zero":
 			if len(x.Args) == 1 {
 				if tl, ok := x.Args[0].(*ETypeLit); ok {
@@ -1296,6 +1332,29 @@ func (env *Env) havocTarget(st *State, x Expr) error {
 					}
 					return nil
 				}
+			case "view":
+				// view(l): the content of every layered ghost variable at layer l
+				l, err := env.evalInt(x.Args[0])
+				if err != nil {
+					return err
+				}
+				for _, gn := range e.DB.Layered {
+					g, ok := e.DB.GhostVars[gn]
+					if !ok {
+						continue
+					}
+					sort, _, err := e.resolveTypeExpr(g.T, g.PkgPath, g.Imports)
+					if err != nil {
+						return err
+					}
+					cur := e.heapGet(st, "G|"+g.Name, sort)
+					nt, err := storePath(e, cur, sort, []string{l})
+					if err != nil {
+						return err
+					}
+					e.heapSet(st, "G|"+g.Name, sort, nt)
+				}
+				return nil
 			case "contents":
 				v, err := env.eval(x.Args[0])
 				if err != nil {
